@@ -56,7 +56,11 @@ fn step_sub_ii() { let a: i64 = kani::any(); let b: i64 = kani::any();
         Some(e) => assert!(matches!(r, Number::Integer(v) if v == e), "Integer(exact result) whenever it fits"),
         None => assert!(matches!(r, Number::Float(f) if same(f, (a as f64) - (b as f64))), "otherwise the Float of the operands' double values"),
     }, None => assert!(false, "never Err") } }
-// @obligation owners=C09,C15 fn=eval_number::ast::eval/Multiply(Integer,Integer)
+// @obligation owners=C09,C15 fn=eval_number::ast::eval/Multiply(Integer,Integer) bounded="operands in the i32 range (the product always fits); the full i64 domain is step_mul_ii in the thorough tier"
+#[kani::proof]
+fn step_mul_ii_small() { let a: i32 = kani::any(); let b: i32 = kani::any();
+    match ok(eval(Node::Multiply(int(a as i64), int(b as i64)))) { Some(r) => assert!(matches!(r, Number::Integer(v) if v == (a as i64) * (b as i64)), "exact product"), None => assert!(false, "never Err") } }
+// @obligation owners=C09,C15 fn=eval_number::ast::eval/Multiply(Integer,Integer) tier=thorough
 #[kani::proof]
 fn step_mul_ii() { let a: i64 = kani::any(); let b: i64 = kani::any();
     match ok(eval(Node::Multiply(int(a), int(b)))) { Some(r) => match a.checked_mul(b) {
@@ -69,17 +73,17 @@ fn step_mul_ii_float_value() { let a: i64 = kani::any(); let b: i64 = kani::any(
     match ok(eval(Node::Multiply(int(a), int(b)))) { Some(r) => assert!(matches!(r, Number::Float(f) if same(f, (a as f64) * (b as f64))), "the Float of the operands' double values"), None => assert!(false, "never Err") } }
 
 // ---- + - * with a Float operand: IEEE operation on the operands' values ------------------------------------
-// @obligation owners=C09 fn=eval_number::ast::eval/Add(Float,_)
+// @obligation owners=C09,C15 fn=eval_number::ast::eval/Add(Float,_)
 #[kani::proof]
 fn step_add_f() { let x = any_num(); let y = any_num();
     kani::assume(matches!(x, Number::Float(_)) || matches!(y, Number::Float(_)));
     match ok(eval(Node::Add(leaf(&x), leaf(&y)))) { Some(r) => assert!(has_value(&r, val(&x) + val(&y)), "IEEE operation on the operands' values"), None => assert!(false, "never Err") } }
-// @obligation owners=C09 fn=eval_number::ast::eval/Subtract(Float,_)
+// @obligation owners=C09,C15 fn=eval_number::ast::eval/Subtract(Float,_)
 #[kani::proof]
 fn step_sub_f() { let x = any_num(); let y = any_num();
     kani::assume(matches!(x, Number::Float(_)) || matches!(y, Number::Float(_)));
     match ok(eval(Node::Subtract(leaf(&x), leaf(&y)))) { Some(r) => assert!(has_value(&r, val(&x) - val(&y)), "IEEE operation on the operands' values"), None => assert!(false, "never Err") } }
-// @obligation owners=C09 fn=eval_number::ast::eval/Multiply(Float,_) tier=thorough
+// @obligation owners=C09,C15 fn=eval_number::ast::eval/Multiply(Float,_) tier=thorough
 #[kani::proof]
 fn step_mul_f() { let x = any_num(); let y = any_num();
     kani::assume(matches!(x, Number::Float(_)) || matches!(y, Number::Float(_)));
@@ -214,7 +218,7 @@ fn step_pow_ii_total() { let a: i64 = kani::any(); let b: i64 = kani::any();
     match ok(eval(Node::Pow(int(a), int(b)))) { Some(r) => { if b < 0 { assert!(is_from(&r, res()), "negative exponent: float power of the operands' doubles") } }, None => assert!(false, "never Err") } }
 
 // ---- factorial ------------------------------------------------------------------------------------------------------
-// @obligation owners=C09,C10,C15 fn=eval_number::ast::eval/Factorial(Integer)
+// @obligation owners=C09,C10,C15 fn=eval_number::ast::eval/Factorial(Integer) tier=thorough
 #[kani::proof]
 #[kani::unwind(22)]
 #[kani::stub(f64::sin, s_sin)]
